@@ -70,3 +70,12 @@ Theorem C14_hook_iteration : forall c inst st idx e r s,
               exists t, o_trace s' = TAck e ROk :: TUser (UFHook st) r (Some r) (w_now (o_w s)) UOk :: t).
 Proof. exact hook_iteration_ff. Qed.
 Print Assumptions C14_hook_iteration.
+
+(* EVERY REGISTERED HOOK HAS A CONSUMER, for every configuration — whatever the other build options (pause-retry enabled or not,
+   timeout store or not, any parallel counts): workflow.go Run launches one run-state-change consumer per registered hook
+   (corollary of C10_launch_exact; the launch model is run against the real Builder + Run by the `launch` family, and the engine
+   harness marks a configured unit that has no process with API=-1, which C14's monitor reports) *)
+From WF Require Import model.Launch proofs.LaunchProofs.
+Theorem C14_every_hook_has_a_consumer : forall c h, In h (cf_hooks c) -> In (UHook h) (launch c).
+Proof. intros c h H. apply launch_units. do 6 right. exists h. split; [exact H|reflexivity]. Qed.
+Print Assumptions C14_every_hook_has_a_consumer.
